@@ -4,6 +4,7 @@ mod rng;
 mod gen;
 mod helpers;
 mod cli;
+mod hist;
 
 use serde_json::{json, Value};
 use std::fs::File;
@@ -271,6 +272,7 @@ fn main() {
         "record" => gen::cmd_record(rest),
         "helpers" => helpers::cmd_helpers(rest),
         "cli" => cli::cmd_cli(rest),
+        "hist" => hist::cmd_hist(rest),
         "plain" => {
             // plain <aj.ndjson>: print rule/data as plain JSON (debug aid)
             for c in load_cases(&rest[0]) {
